@@ -165,7 +165,7 @@ def r4(ctx):
 
 def r5(ctx):
     ctx.rule('C03.R5', 'after a lost arbitration the lock counter is set to a positive number of SYNs to wait (a constant >= 1 '
-             'or m_lockCount, which the constructor keeps >= 3)', minimum=2)
+             'or m_lockCount, which the constructor keeps >= 3) on the path on which the device reports the lost arbitration', minimum=3)
     fb = ctx.fb
     fn, sw, regs, edges, rmap = A.extracted_edges(fb)
     states, _ = A.bus_states(fb)
@@ -193,6 +193,66 @@ def r5(ctx):
     # at least one such write dominates the lost transition
     passes = not fn.reaches_point(lab, fn.pos(lost[0]['node']), set(w[0] for w in ws))
     ctx.ob('C03.R5', fn, lost[0]['node'], bool(ws) and passes, 'lock counter set before BUS_LOST', 'on every path: %s' % passes)
+    # the lost arbitration is reported by the device (arbitration state out-parameter of recv): from the as_lost case of
+    # the switch on it, every path with a received winner symbol (result not negative) to the BUS_LOST transition must
+    # pass a positive lock counter write. (The bs_ready arm above is only reached for a symbol the handler sent itself.)
+    arb = fn.outarg('Device::recv', 2)
+    as_lost = None
+    for en, e in fb.enums.items():
+        for x in e['enumerators']:
+            if x['name'] == 'as_lost':
+                as_lost = x['v']
+    res = fn.outarg('Device::recv', 1)
+    rvar = [d.split(':')[-1] for nid, d, rhs, op, lhs in fn.assignments() if op == 'init' and rhs is not None and
+            'recv(' in fn.key(rhs) and d]
+    sws = [b_ for b_ in fn.blocks.values() if b_.tk == 'SwitchStmt' and b_.cond is not None and fn.key(fn.effective_cond(b_.id)) == arb]
+    if arb is None or as_lost is None or len(sws) != 1 or not rvar:
+        raise AnalysisBroken('C03.R5: switch on the arbitration state reported by the device not found')
+    lab = None
+    for sidx in sws[0].succs:
+        if sidx is not None and fn.blocks[sidx].label and fn.blocks[sidx].label.get('kind') == 'case' and \
+                fn.blocks[sidx].label.get('v') == as_lost:
+            lab = sidx
+    if lab is None:
+        raise AnalysisBroken('C03.R5: case as_lost not found')
+    allw = [(nid, rhs) for nid, d, rhs, op, lhs in fn.assignments() if d == 'this.m_remainLockCount' and rhs is not None]
+    pos_w = set()
+    for nid, rhs in allw:
+        r = fn.nodes.get(fn.strip(rhs), {})
+        vals = [fn.val(r['then']), fn.val(r['else'])] if r.get('k') == 'ConditionalOperator' else [fn.val(rhs)]
+        if all(v is not None and v >= 1 for v in vals) or fn.key(rhs) == 'this.m_lockCount':
+            pos_w.add(nid)
+    cut = fn.edges_with_atom('(%s == #%d)' % (arb, as_lost), False) + fn.edges_with_atom('(%s < #0)' % rvar[0], True)
+    bus_lost = None
+    for en, e in fb.enums.items():
+        for x in e['enumerators']:
+            if x['name'] == 'RESULT_ERR_BUS_LOST':
+                bus_lost = x['v']
+    calls = [c for c in fn.all('CXXMemberCallExpr') if (fn.nodes[c].get('callee') or '').endswith('::setState') and
+             len(fn.nodes[c].get('args', [])) > 1 and fn.val(fn.nodes[c]['args'][1]) == bus_lost]
+    # the region of the as_lost case: blocks reachable from its label before another case of this switch begins
+    others = [s_ for s_ in sws[0].succs if s_ is not None and s_ != lab and fn.blocks[s_].label and
+              fn.blocks[s_].label.get('kind') in ('case', 'default') and fn.blocks[s_].label.get('v') != as_lost]
+    chain = lab     # `case as_lost: case as_timeout:` share their statements: follow the empty fall-through labels
+    while not fn.blocks[chain].elems and len([x for x in fn.blocks[chain].succs if x is not None]) == 1 and \
+            fn.blocks[chain].succs[0] in others:
+        chain = fn.blocks[chain].succs[0]
+        others.remove(chain)
+    region = fn.reach([lab], cut_blocks=others)
+    m = 0
+    for c in calls:
+        if fn.block_of(c) not in region or fn.block_of(c) in regs[inv['bs_ready']]:
+            continue
+        # only calls that belong to the as_lost case: reachable from its label before any other case label
+        m += 1
+        n += 1
+        unlocked = fn.reaches_point(lab, fn.pos(c), pos_w, cut_edges=cut)
+        ctx.ob('C03.R5', fn, c, not unlocked, 'lock counter set when the device reports a lost arbitration',
+               'every path from case as_lost (winner symbol received) to the BUS_LOST transition sets a positive lock '
+               'counter: %s' % (not unlocked))
+        break
+    if m == 0:
+        raise AnalysisBroken('C03.R5: BUS_LOST transition of the as_lost case not found')
     # constructor lower bound of m_lockCount
     for f in fb.fns('ebusd::DirectProtocolHandler::DirectProtocolHandler'):
         for it in f.inits:
@@ -266,3 +326,8 @@ def run(ctx):
     r5(ctx)
     r6(ctx)
     r7(ctx)
+    import rules.C01 as c01
+    ctx.rule('C03.R8', 'the echo comparison sees the symbols as sent and received: neither is reassigned before it and it '
+             'precedes the CRC update and the unescaping, so that a collision on any sent symbol (also on the halves of an '
+             'escape sequence) silences ebusd', minimum=2)
+    c01.raw_symbol_rules(ctx, None, 'C03.R8')
